@@ -2,9 +2,7 @@ SPECIFICATION Spec
 CONSTANTS
   MaxXfers = 2
   MaxMid = 0
-  Sources <- BothSrc
+  Sources <- OnlyS
   Emit = FALSE
-  FixF28 <- FixOff
-INVARIANT WF
-INVARIANT Content
+INVARIANT KF31Gone
 CHECK_DEADLOCK FALSE
